@@ -9,21 +9,21 @@ CLAIMED = {
     'C01': (M + ' + ' + K, 'one next_json_value call from an arbitrary reader state on n free bytes (all 256 values each) against a symbolic RFC 8259 reference: value/denotation, bytes consumed, look-ahead, garbage resynchronisation; string tokens and number tokens by class with every byte free; read loop: one context per value; From<f64> normalisation over every finite double (Kani); concrete translator self-check against the real binary'),
     'C02': (M + ' + ' + K, 'print_string on 1..2 free code points x utf8_strings against a symbolic RFC 8259 string reader; value shapes x free style against the exact text; numbers handed to Display unchanged; one write per row with the separator; arithmetic never yields a non-finite number (Kani)'),
     'C03': (M, 'the chain built by go() for every option subset (vectors <= 2) against the documented order, capacity placement, complete() after the last read; each stage one step against its list-transformer contract, Break and Err forwarding with free successor answers; start/complete forwarding; limiter, sorter, collectors, unique, contexts, titles, --set collection'),
-    'C04': (M + ' + ' + K, 'function kernels take/take_last/sub/pop/pop_first/first/last/push/push_front/reverese/head/tail/size/get/range/put/keys/values/default on arrays and objects of 0..3 opaque elements and on every well-formed UTF-8 string of 0..3 bytes, counts any u64; contexts, pipe, :var/@macro, every function name and alias read back whole; arithmetic kernels on all finite doubles (Kani)'),
+    'C04': (M + ' + ' + K, 'function kernels take/take_last/sub/pop/pop_first/first/last/push/push_front/reverese/head/tail/size/get/range/put/keys/values/default, fold (every answer pattern of the function argument) on arrays and objects of 0..3 opaque elements and on every well-formed UTF-8 string of 0..3 bytes, counts any u64; contexts, pipe, :var/@macro, every function name and alias read back whole; arithmetic kernels on all finite doubles (Kani)'),
     'C05': (M + ' + ' + K, 'panic paths and progress of the tokenizer on n free bytes and on string tokens by class; panic paths of the function kernels (slicing, overflow); expression reader on every text of <= 3 bytes; expression-name truncation; read loop; arithmetic on integer pairs over the full 64-bit ranges (Kani)'),
-    'C06': (M, 'read_input over every parser outcome x 4 policies x every successor/write outcome; a garbage byte costs exactly one byte and one recoverable error from any reader state'),
+    'C06': (M, 'read_input over every parser outcome x 4 policies x every successor/write outcome; a garbage byte costs exactly one byte and one recoverable error from any reader state; counters and locations handed to the context'),
     'C07': (M + ' + ' + K, 'SortProcess over k rows with free key ranks (ties, absent keys, both directions, with and without capacity); chain order of repeated --sort-by; JsonValue::cmp arm by arm over the 36 type pairs; sort functions delegate to stable sorts; order axioms of NumberValue/JsonValue scalars over full payload ranges (Kani)'),
     'C08': (M, 'limiter step from any counters (inductive), top-N sorter with capacity over k rows with free key ranks, capacity placement and complete() in the chain built by go() for every option subset'),
-    'C09': (M, 'GrouperProcess / Merger over k rows with keys absent / string (free identity) / non-string, k = 0 included; limiter and sorter forward complete(); go() completes the chain whatever was read'),
-    'C10': (M + ' + ' + K, 'Uniquness over k rows with keys free under an abstract equivalence; Context::key; Hash agrees with Eq on scalars in normal form, From<f64> normalisation, exact integer equality (Kani)'),
-    'C11': (M, 'frame condition (no write through self) and contract of the stateless stages for every getter result and successor answer; the context is built from the value and its locations only; the regex cache key is the pattern text'),
+    'C09': (M, 'GrouperProcess / Merger over k rows with keys absent / string (free identity) / non-string, k = 0 included; limiter and sorter forward complete(); go() completes the chain whatever was read; limiter step'),
+    'C10': (M + ' + ' + K, 'Uniquness over k rows with keys free under an abstract equivalence; Context::key; the getter of `=` is PartialEq::eq on both values and nothing else; Hash agrees with Eq on scalars in normal form, From<f64> normalisation, exact integer equality (Kani)'),
+    'C11': (M, 'frame condition (no write through self) and contract of the stateless stages for every getter result and successor answer; the context is built from the value and its locations only; the regex cache key is the pattern text; MIR inventory of interior-mutability types outside the writers / regex cache / function table (premise of the frame argument), hits replayed natively as out(A.B) = out(A).out(B)'),
     'C12': (M, 'Context::with_* and parent_input on contexts with 0..2 parents/results/variables; the pipe function; :var / @macro evaluation in the current context'),
-    'C13': (M, 'argument separators (1..2 free bytes over blanks and commas) between every kind of argument; option readers accept exactly their documented tail; every declared function name and alias is read back whole; context derivations; regex cache key'),
+    'C13': (M, 'argument separators (1..2 free bytes over blanks and commas) between every kind of argument, non-ASCII variable names included; option readers accept exactly their documented tail; every declared function name and alias is read back whole; context derivations; regex cache key'),
     'C14': (M, 'Break forwarding of every upstream stage for every successor answer; limiter step; read loop stops after Break; the limiter is in the chain whenever --skip/--take is given'),
-    'C15': (M, 'text/csv row layout for N <= 3 columns x headers x present/absent values x write outcomes; csv quoting of 1..2 free code points decoded by a symbolic RFC 4180 reader; titles; numbers'),
+    'C15': (M, 'text/csv row layout for N <= 3 columns x headers x present/absent values x write outcomes; csv quoting of 1..2 free code points decoded by a symbolic RFC 4180 reader; titles; numbers; the csv preset constants and the escape table built from --escape-sequance entries of 0..3 free ASCII bytes'),
     'C16': (M, 'read failure injected at every position of the tokenizer input; read loop, stages and limiter propagate Err for every successor answer; both output processes return a failing write'),
     'C17': (M, 'location bookkeeping per tokenizer call from any location; counters and locations handed to the context in the read loop; one fresh reader per file, files in argv order with one index; every stage derives its context from the one it received'),
-    'C18': (M, 'every validation precedes start/stdin/read in go() for every option subset and validation outcome; every option reader rejects trailing text (free bytes); duplicate --set names'),
+    'C18': (M, 'every validation precedes start/stdin/read in go() for every option subset and validation outcome; every option reader rejects trailing text (free bytes); duplicate --set names; every truncated call (text ending inside an open parenthesis, free trailing separators) is rejected; FunctionDefinitions::create is Err exactly outside [min, max] for free 64-bit min, max and argument count'),
     'C19': (M + ' + ' + K, 'integer spellings of 1..20 digits with every digit value free: exact Positive/Negative on [-2^63,2^64), digit string to parse::<f64> otherwise; printing hands the integer to Display unchanged; usize conversions and integer equality exact (Kani). The number-as-string half of the property (exact decimal arithmetic) rests on the bigdecimal crate, is out of reach of both engines and is NOT claimed'),
 }
 NA = {
